@@ -14,13 +14,20 @@ from scenarios import common
 from scenarios import c04
 from scenarios.common import v
 
-EXC_TYPES = ('ValueError', 'RuntimeError', 'KeyError', 'ZeroDivisionError')
+# (Empty / QueueEmpty / TimeoutError / StopAsyncIteration: exception types the
+# queue itself uses for its control flow; a producer's iterator may raise them
+# as well, e.g. one that polls another queue)
+EXC_TYPES = ('ValueError', 'RuntimeError', 'KeyError', 'ZeroDivisionError',
+             'ValueError', 'RuntimeError', 'Empty', 'QueueEmpty', 'TimeoutError')
 
 
 def _exc(name, msg):
+  import asyncio
+  import queue
   return {'ValueError': ValueError, 'RuntimeError': RuntimeError,
           'KeyError': KeyError, 'ZeroDivisionError': ZeroDivisionError,
-          'TimeoutError': TimeoutError}[name](msg)
+          'TimeoutError': TimeoutError, 'Empty': queue.Empty,
+          'QueueEmpty': asyncio.QueueEmpty}[name](msg)
 
 
 def _subset_nodup(got, produced):
